@@ -148,14 +148,23 @@ def IterTables.wf (t : IterTables) : Bool :=
   t.iterWrites.isEmpty && t.otherWrites.isEmpty && t.initIterators.isEmpty && t.seqWrites.isEmpty &&
     t.iterReads.all (fun a => modelledAttrs.contains a) && t.rebuilds && t.lenIsCount && t.seqIterPlain
 
-/-- `DistributedSequentialSampler.__init__`: world size and (global) rank default to `communication`'s; limit first, then
-`chunks`, then this rank's chunk (`rankVols`) -/
+/-- `DistributedSequentialSampler.__init__` as data flow (locals inlined, so their names and the number of intermediate
+locals do not matter): world size and (global) rank default to `communication`'s; `self.volume_indices` holds the dataset's
+ranges of the volumes in chunk `rank` of `chunks(LIMIT(all volumes), num_replicas)` — the limit is applied to the list
+that is distributed over the ranks (`rankVols`), not to a rank's chunk -/
 def expectedSeqInitOrder : List String :=
   ["default: num_replicas=communication.get_world_size()",
    "default: rank=communication.get_rank()",
-   "limit: filenames=filenames[:limit_number_of_volumes] if limit_number_of_volumes",
-   "chunk: chunked_filenames<-chunks(filenames, self.num_replicas)",
-   "select: filenames=chunked_filenames[self.rank]"]
+   "volume_indices: {_: dataset.volume_indices[_] for _ in list(chunks(LIMIT(list(dataset.volume_indices.keys()), limit_number_of_volumes), num_replicas))[rank]}"]
+
+/-- `ConcatDatasetBatchSampler`: per-member shuffling samplers, weights = lengths, and what `__next__` returns with its
+locals inlined: the member is drawn with probability proportional to its length, then that member's own batch generator is
+advanced (`Sampler.concatRun`) -/
+def expectedConcatNextFlow : List String :=
+  ["self.samplers=[DistributedSampler(len(_), shuffle=True, seed=seed) for _ in datasets]",
+   "self.weights=np.asarray([len(_) for _ in datasets])",
+   "self.cumulative_sizes=self.cumsum(datasets)",
+   "return next(self._batch_samplers[random.choices(range(len(self.weights)), weights=self.weights / self.weights.sum())[0]])"]
 
 /-- `DistributedSampler.__init__`: without an explicit seed every process takes the *shared* seed (rank 0's, through
 `all_gather`) — the rank streams are strided views of one stream (`distStream`) only if all ranks seed alike —;
